@@ -286,11 +286,17 @@ func (r *runner) corrChild(out string) {
 		mk := mikeyCases(!c.Quick())
 		r.dump.Dist["mikey-boundary-cases"] += len(mk)
 		cases = append(cases, mk...)
+		nc := numericCases(c.Seed, !c.Quick())
+		r.dump.Dist["numeric-extreme-cases"] += len(nc)
+		cases = append(cases, nc...)
+		tf := transportFieldCases(c.Seed, mc, !c.Quick())
+		r.dump.Dist["transport-field-cases"] += len(tf)
+		cases = append(cases, tf...)
 		cases = append(cases, truncationCases(rng, Cfg{Handler: "full", UDP: true}, c.N(7, 1))...)
 		if !c.Quick() {
 			cases = append(cases, truncationCases(rng, Cfg{Handler: "full", UDP: false, TLS: true}, 3)...)
 		}
-		n := c.N(900, 24000)
+		n := c.N(650, 24000)
 		for i := 0; i < n; i++ {
 			cfg := cfgs[rng.IntN(len(cfgs))]
 			sub := rand.New(rand.NewPCG(c.Seed, uint64(i)+77))
